@@ -420,6 +420,8 @@ def _derive(w, op, prop):
                     return "skipped"
                 try:
                     values[tx] = [eval_expr(nm, {c: m.data[c][i] for c in m.cols}) for i in range(m.n())]
+                    if m.n() == 0:
+                        eval_expr(nm, {c: 1 for c in m.cols})
                 except ZeroDivisionError:
                     ok = False
                 except (KeyError, TypeError, OverflowError):
@@ -492,6 +494,8 @@ def _derive(w, op, prop):
             return "skipped"            # a column that is NAMED like the expression is returned as it is (by design)
         try:
             exp = [eval_expr(ast, {c: m.data[c][i] for c in m.cols}) for i in range(m.n())]
+            if m.n() == 0:
+                eval_expr(ast, {c: 1 for c in m.cols})      # a constant sub-expression may divide by zero even without rows
         except (ZeroDivisionError, KeyError, TypeError, OverflowError):
             return "skipped"
         where = "table #%d %s" % (tid, "t[%r]" % tx if via == "item" else "t.cols[%r]" % tx)
